@@ -4,3 +4,6 @@ import MainlineModel.Model.Basic
 import MainlineModel.Model.Crc32c
 import MainlineModel.Model.Sha1
 import MainlineModel.Model.Id
+import MainlineModel.Model.BinarySearch
+import MainlineModel.Model.Node
+import MainlineModel.Model.RoutingTable
